@@ -216,7 +216,11 @@ dt_strp(const char *str, char **on, size_t len)
 	} else {
 		goto nul;
 	}
-	/* year can be set now */
+	/* year can be set now, the slot holds 12 bits only
+	 * the bits above carry the calendar scale */
+	if (UNLIKELY(tmp > 4095U)) {
+		goto nul;
+	}
 	res.y = tmp;
 
 	/* advance over ISO-8601 dash */
@@ -242,6 +246,9 @@ dt_strp(const char *str, char **on, size_t len)
 		goto nul;
 	}
 	/* that's the month gone */
+	if (UNLIKELY(!tmp || tmp > 12U)) {
+		goto nul;
+	}
 	res.m = tmp;
 
 	/* again, advance over ISO-8601 separator */
@@ -273,6 +280,9 @@ dt_strp(const char *str, char **on, size_t len)
 		goto nul;
 	} else if ((uint8_t)(*sp ^ '0') < 10U) {
 		tmp += *sp++ ^ '0';
+		if (UNLIKELY(!tmp || tmp > 31U)) {
+			goto nul;
+		}
 		res.d = tmp;
 	} else {
 		goto nul;
